@@ -39,7 +39,7 @@ func TestConcurrentRawBodies(t *testing.T) {
 	}
 	bin, diag, err := sess.BuildHarness(out.Run, true)
 	if err != nil {
-		t.Fatalf("INCONCLUSIVE harness: %v %s", err, diag)
+		t.Fatalf("INCONCLUSIVE: harness: %v %s", err, diag)
 	}
 	for r := 0; r < rounds; r++ {
 		// a fresh server process per round: state that is shared by mistake
